@@ -447,6 +447,9 @@ units). -/
 def numOfTimex (u : Uni) (timex : Str) : Option Nat :=
   RTV.DtRes.pyInt u (((sliceI timex 0 ((timex.length : Int) - 1)).filter (· ≠ 80)).filter (· ≠ 84))
 
+/-- `AgoLaterMode.DATE` unless `pr.timex_str.__contains__("T")` -/
+def dateModeOf (timexStr : Str) : Bool := !timexStr.contains 84
+
 inductive ARes
   | raises (kind : String)
   | noResult
@@ -471,7 +474,7 @@ def agoLater (u : Uni) (dur : Option (Option (Str × Str))) (srcUnit : Option St
         match numOfTimex u valueTimex with
         | none => .raises "ValueError"
         | some num =>
-          let dateMode := !timexStr.contains 84
+          let dateMode := dateModeOf timexStr
           match (unitMap.find? (fun p => p.1 == su)).map (·.2) with
           | none => .noResult
           | some code =>
